@@ -13,11 +13,10 @@ Two rewriting passes sit in front of z3 (DESIGN.md 2.1), each with its lemma re-
   * Bech32: XOR-affine normal form of the real bech32_polymod (symx/anf.py, DAG pass).
 """
 import hashlib
-import itertools
 
 import checks.c20 as c20   # noqa: F401  (import first: registers loader.PATCHES for sbuidl.bech32 = f-string seams + if-conversion)
 from symx import core, loader, shims, anf
-from symx.core import (SI, SB, SBytes, check, assume, s_and, s_or, s_not, s_implies, s_ite, norm, wrap, lift, bytes_env, conc_value, Out)
+from symx.core import (SI, SBytes, check, assume, s_and, s_or, s_not, s_ite, norm, wrap, lift, bytes_env, conc_value, Out)
 from vlib.run import Ob, sym_run, merge_runs, conc_run
 
 PROPERTY = "C09"
@@ -43,7 +42,8 @@ META = {
             "addresses": "P2PKH / P2SH / P2WPKH / P2WSH / P2TR x 4 networks, every 20- / 32-byte hash: address_to_script_pubkey(spk."
                          "address(net)) == spk and TxOut.to_address(...).script_pubkey == spk"},
         "thorough": {
-            "base58": "n in {1,2,3,4,5,20,21,32,33,34,37,38,64,78,82}; z3-only chain for n in {1,2,3}",
+            "base58": "n in {1,2,3,4,5,20,21,32,33,34,37,38,64,78,82}; z3-only chain for n in {1,2} (n = 3: ~12 min and a timed-out "
+                      "feasibility query; n >= 5 does not finish: that is what the rewriting pass is for)",
             "segwit": "program lengths 2..40",
             "error detection": "every data-part length 7+ceil(8n/5) for n in 2..40 x {bc,tb,bcrt}"}},
     "outside": [
@@ -187,6 +187,8 @@ class Txt:
     __hash__ = object.__hash__
 
     def startswith(self, p):
+        if isinstance(p, tuple):
+            return any(self.startswith(x) for x in p)
         if len(p) > len(self.items):
             return False
         return bool(Txt(self.items[:len(p)])._eq(p))
@@ -425,21 +427,6 @@ def spec_segwit_symbols(hrp, v, prog, const):
 def spec_segwit_encode(hrp, v, prog):
     syms = spec_segwit_symbols(hrp, v, prog, 1 if v == 0 else BECH32M)
     return hrp + "1" + "".join(B32[s] for s in syms)
-
-
-def spec_segwit_decode(addr):
-    """BIP173 / BIP350 reference decoder restricted to what C09 needs (lower case): (hrp, version, program) or None"""
-    pos = addr.rfind("1")
-    if pos < 1 or pos + 7 > len(addr) or any(c not in B32 for c in addr[pos + 1:]):
-        return None
-    hrp = addr[:pos]
-    data = [B32.find(c) for c in addr[pos + 1:]]
-    if spec_polymod(spec_hrp_expand(hrp) + data) != (1 if data[0] == 0 else BECH32M):
-        return None
-    body, _ = c20.spec_5to8(data[1:-6])
-    if body is None:
-        return None
-    return hrp, data[0], bytes(body)
 
 
 def sym_text(alpha, digits):
@@ -722,11 +709,17 @@ def _wif_path(network, compressed):
     check(back.network == ("mainnet" if network == "mainnet" else "testnet"), "parse(wif()): mainnet / non-mainnet class differs", witness=wit)
     t2 = back.wif(compressed=back.compressed)
     check((len(t2.raw) == len(t.raw)) and (t2.raw == t.raw), "parse(w).wif(parse(w).compressed) != w", witness=wit)
-    return "ok"
+    return Out("ok", t.raw)
 
 
 def ob_wif():
-    runs = [sym_run(lambda: _wif_path(net, comp), expect_classes=["ok"]) for net in NETS for comp in (True, False)]
+    natp, nath = loader.native("pecc"), loader.native("helper")
+
+    def native(env, net, comp):
+        # the real WIF text of the real key, decoded by the reference Base58Check decoder
+        return spec_b58decode(natp.PrivateKey(env["secret"], network=net).wif(compressed=comp))[:-4]
+    runs = [sym_run(lambda: _wif_path(net, comp), expect_classes=["ok"], gen_env=lambda rng: {"secret": rng.randrange(1, N_SECP)},
+                    native=lambda env, net=net, comp=comp: native(env, net, comp), n_val=2) for net in NETS for comp in (True, False)]
     m = merge_runs(runs)
     m["sample"] = {"secret": "symbolic in [1, N-1]", "networks": list(NETS), "compressed": [True, False]}
     return m
@@ -821,14 +814,26 @@ def _segwit_path(n, network, vclass):
     check(net == NETCLASS[hrp], "decode_bech32: network", witness=wit)
     check(ver == v, "decode_bech32: witness version", witness=wit)
     check((len(hsh) == n) and (hsh == prog), "decode_bech32: witness program", witness=wit)
-    return vclass
+    return Out(vclass, syms)
 
 
 def ob_segwit(lengths, network):
     runs = []
+    nat = loader.native("bech32")
+
+    def native(env, n):
+        s0 = env.get("s0", 0)
+        a = nat.encode_bech32_checksum(bytes([s0, n]) + bytes_env(env, "p", n), network)
+        return [B32.find(c) for c in a[len(HRP[network]) + 1:]]
     for n in lengths:
         for vc in ("v0", "v1-16"):
-            runs.append(sym_run(lambda: _segwit_path(n, network, vc), timeout_ms=60000, expect_classes=[vc]))
+            def gen(rng, n=n, vc=vc):
+                env = {f"p[{i}]": rng.randrange(256) for i in range(n)}
+                if vc != "v0":
+                    env["s0"] = rng.randrange(0x51, 0x61)
+                return env
+            runs.append(sym_run(lambda: _segwit_path(n, network, vc), timeout_ms=60000, expect_classes=[vc], gen_env=gen,
+                                native=lambda env, n=n: native(env, n), n_val=4))
     m = merge_runs(runs)
     m["sample"] = {"network": network, "program lengths": list(lengths), "version byte": "0x00, and symbolic in 0x51..0x60", "program": "symbolic bytes"}
     return m
@@ -1088,10 +1093,10 @@ def ob_anf_crosscheck(k):
             for _ in range(300):
                 vals = [random.randrange(32) for _ in range(90)]
                 got = anf.evaluate(ma, lambda node, bit: (vals[ids[node.id]] >> bit) & 1, anf.STRICT)
-                ok = ok and got == nat.bech32_polymod(list(vals)) and got == spec_polymod(vals)
+                ok = ok and got == nat.bech32_polymod(list(vals))
             return "ok"
         core.explore(p)
-        return ok, "normal form of the real bech32_polymod at 90 symbols evaluated on 300 random inputs against the native function and the reference"
+        return ok, "normal form of the real bech32_polymod at 90 symbols evaluated on 300 random inputs against the native function"
     runs.append(conc_run(rnd, "XOR-affine normal form vs native bech32_polymod (concrete)"))
     m = merge_runs(runs)
     m["sample"] = {"symbols": k, "checks": "z3: expression == rebuilt normal form; z3 direct two-substitution query; reference generator constants"}
@@ -1321,7 +1326,7 @@ def obligations(tier):
         for (a, b) in _chunks(0, tot, 1 if tot <= 9 else (2 if tot <= 25 else (4 if tot <= 42 else 12))):
             obs.append(Ob("O1-base58", ob_b58, {"n": tot, "zlo": a, "zhi": b}, replay="b58", budget_s=1500))
     obs.append(Ob("O1-checksum-layout", ob_b58_layout, {"lengths": tuple(sizes)}, replay="b58layout"))
-    for n in ((1, 2) if q else (1, 2, 3)):
+    for n in (1, 2):     # n = 3 needs ~12 min and one feasibility query times out: not claimed
         obs.append(Ob("O1-base58check-z3", ob_b58_direct, {"n": n}, replay="b58", budget_s=1500))
     # ---- O2
     obs.append(Ob("O2-wif", ob_wif, replay="wif"))
